@@ -77,7 +77,7 @@ def _gen_tree(rng, family, max_junctions, sorted_labels, thermal, kinds, big_lab
     cnt = _Counter(rng, sorted_labels)
     all_kinds = ["pipe_std", "valve", "pump", "compressor", "flow_control", "press_control",
                  "heat_exchanger", "mass_storage", "source", "second_feeder", "valve_pi",
-                 "heights", "sections", "closed_valve", "oos", "nan_load"]
+                 "heights", "sections", "closed_valve", "oos", "nan_load", "trickle"]
     if kinds is None:
         k = rng.randint(0, len(all_kinds))
         kinds = set(rng.sample(all_kinds, k))
@@ -252,6 +252,22 @@ def _gen_tree(rng, family, max_junctions, sorted_labels, thermal, kinds, big_lab
         ops.append({"fn": "create_mass_storage", "kw": {"junction": so["kw"]["junction"],
                                                         "mdot_kg_per_s": mdot, "index": idx}})
         meta["loads"].append(("mass_storage", idx, "mdot_kg_per_s", mdot))
+    # radial net (no mesh closer, one feeder): every branch flow is the sum of the loads behind it, exactly
+    radial = nclose == 0 and not ("second_feeder" in kinds and n >= 3)
+    meta["radial"] = bool(radial)
+    if radial and "trickle" in kinds:
+        # a leaf that draws a trickle (between the kernels' zero-flow threshold of 1e-10 kg/s and anything a
+        # solver tolerance could blur): its supply branch is "flowing" for both engines
+        parents = {o["kw"].get("from_junction", o["kw"].get("junction")) for o in ops if o["fn"] not in ("create_junction", "create_ext_grid", "create_sink")}
+        leaf_sinks = [o for o in ops if o["fn"] == "create_sink" and o["kw"]["junction"] not in parents
+                      and o["kw"]["junction"] not in meta.get("must_load", []) and o["kw"]["junction"] != meta.get("fc_leaf")
+                      and sum(1 for o2 in ops if o2["fn"] in ("create_sink", "create_source", "create_mass_storage") and o2["kw"]["junction"] == o["kw"]["junction"]) == 1]
+        if leaf_sinks:
+            so = rng.choice(leaf_sinks)
+            so["kw"]["mdot_kg_per_s"] = rng.choice([5e-9, 2e-9, 8e-9])
+            so["kw"].pop("scaling", None)
+            meta["loads"] = [l for l in meta["loads"] if not (l[0] == "sink" and l[1] == so["kw"]["index"])]
+            meta["trickle_sink"] = so["kw"]["index"]
     if "nan_load" in kinds:
         # a consumer / feed-in without a value: documented to count as zero flow
         idx = cnt.new("sink")
